@@ -124,7 +124,7 @@ def partition_kwargs(case):
     kw = {}
     if "objective" in case and case["objective"] is not None:
         name, kp = case["objective"]
-        kw["objective"] = A.objective(name, kp)
+        kw["objective"] = A.objective(name, kp, case=case)
     if case["alg"] == "cg" and "cg_mask" in case:
         kw.update(cg_config(case["cg_mask"]))
     if case.get("iterations") is not None:
